@@ -510,6 +510,8 @@ writeloop:
 			dst = append(dst, '{')
 			stack = append(stack, stackObject)
 			// We should not emit commas.
+			// Always move into object.
+			i.addNext = 0
 			i.AdvanceInto()
 			continue
 		case TagObjectEnd:
@@ -521,6 +523,8 @@ writeloop:
 		case TagArrayStart:
 			dst = append(dst, '[')
 			stack = append(stack, stackArray)
+			// Always move into array.
+			i.addNext = 0
 			i.AdvanceInto()
 			continue
 		case TagArrayEnd:
